@@ -74,10 +74,10 @@ Judge(rec) ==
         feat |-> IF rec.kind = "rt" THEN rec.s.t
                  ELSE IF bad # {} /\ ops[first(bad)].op = "replace_wrap"
                          /\ ReplacedInArgList(rec.s, rec.p, rec.rep2.calls, "wrap")
-                      THEN "replacement-is-call-argument-or-index"
+                      THEN "replacement-inside-call-arguments-or-index"
                  ELSE IF bad # {} /\ ops[first(bad)].op = "replace"
                          /\ ReplacedInArgList(rec.s, rec.p, rec.rep.calls, "marker")
-                      THEN "replacement-is-call-argument-or-index"
+                      THEN "replacement-inside-call-arguments-or-index"
                  ELSE rec.p.t]
 
 Report == Idx <= Len(Recs) => PrintT(ToJson(Judge(Recs[Idx])))
